@@ -11,6 +11,10 @@
 (***************************************************************************)
 EXTENDS Lattice, TLC
 
+\* TLC keeps function constructors lazy and TLCEval only makes the OUTER function explicit: DeepV
+\* evaluates a sequence of fields (a vector field) completely, once
+DeepV(v) == LET w == TLCEval(v) IN TLCEval([k \in 1..Len(w) |-> TLCEval(w[k])])
+
 -----------------------------------------------------------------------------
 (* element-wise algebra: every cell                                        *)
 EwSum(a, b)           == [c \in Cells |-> a[c] + b[c]]
